@@ -85,6 +85,11 @@ type trResult struct {
 }
 
 func convertTraces(t Traces, sorted bool, opts pkg.WriterOptions) (res trResult) {
+	return convertTracesSeq(nil, t, sorted, opts)
+}
+
+// convertTracesSeq: the batches in `before` first, through the SAME converter and writer.
+func convertTracesSeq(before []Traces, t Traces, sorted bool, opts pkg.WriterOptions) (res trResult) {
 	src := BuildTraces(t)
 	buf := &pkg.MemChunkWriter{}
 	func() {
@@ -99,6 +104,16 @@ func convertTraces(t Traces, sorted bool, opts pkg.WriterOptions) (res trResult)
 			return
 		}
 		conv := &steftraces.OtlpToStefUnsorted{Sorted: sorted}
+		for _, b := range before {
+			if err := conv.Convert(BuildTraces(b), writer); err != nil {
+				res.err = "w:" + classifyErr(err)
+				return
+			}
+			if err := writer.Flush(); err != nil {
+				res.err = "w:" + classifyErr(err)
+				return
+			}
+		}
 		if err := conv.Convert(src, writer); err != nil {
 			res.err = "w:" + classifyErr(err)
 			return
@@ -294,3 +309,13 @@ func renderSpanRecs(recs []SpanRec) string {
 }
 
 var _ = sort.Strings
+
+// evalTracesSeq: `prev` then `t` through one converter and one writer, both modes.
+func evalTracesSeq(prev, t Traces, opts pkg.WriterOptions) [2]verdict {
+	all := Traces{RSs: append(append([]RS(nil), prev.RSs...), t.RSs...)}
+	var vs [2]verdict
+	for i, m := range tmodes {
+		vs[i] = checkTraces(all, m.sorted, convertTracesSeq([]Traces{prev}, t, m.sorted, opts))
+	}
+	return vs
+}
